@@ -15,7 +15,7 @@ class Prop(G.InputPropBase):
     LEAN_MODULES = ["Tpp.Props.C06"]
     REQUIRED = ["Tpp.Props.C06." + n for n in (
         "C06_chunking", "C06_any_two_partitions", "C06_empty_delivery", "deliverAll_flatten")]
-    RULE = ("one line = several runs, each a partition of the SAME byte stream delivered to a fresh terminal whose client "
+    RULE = ("runs marked ! are delivered by a channel that already holds all deliveries and completes every read synchronously inside async_read, so that the re-arming client's callbacks nest; one line = several runs, each a partition of the SAME byte stream delivered to a fresh terminal whose client "
             "re-arms async_read from inside the callback; the last run is the one-chunk delivery.  Exhaustive: every "
             "representative item (all kinds, introducers, parameter shapes; thorough: every single-item case of C05) "
             "split at every position incl. the empty first/last delivery, byte-wise and whole; every (canonical prefix, "
@@ -95,7 +95,10 @@ class Prop(G.InputPropBase):
                 data = b"".join(rng.choice([G.item_bytes(G.random_item(rng)), G.malformed(rng, 12)]) for _ in range(rng.randrange(1, 8)))
                 tag = "random:mixed"
             runs = [G.chunkings(rng, data, "random"), G.chunkings(rng, data, "random"), G.chunkings(rng, data, "bytes"),
+                    "!" + G.chunkings(rng, data, "random"),     # the channel already holds the deliveries: reads complete synchronously
                     G.chunkings(rng, data, "whole")]
+            if 0 < len(data) <= 80:
+                runs.insert(3, "!" + G.chunkings(rng, data, "bytes"))
             cs.append(Case("I " + " / ".join(runs), cfgs=["C06"], tag=tag))
         # single deliveries that complete very many tokens (a paste): 1 callback per delivery however many tokens
         big = [b"a" * n for n in (1023, 1024, 1025, 2048, 5000)]
